@@ -58,6 +58,10 @@ def in_universe(model) -> bool:
         all(g.id in UNIV_G_SET for g in model.genes)
 
 
+DOCUMENTED_ERRORS = {"RuntimeError", "ValueError", "KeyError", "IndexError", "TypeError", "AttributeError", "OptimizationError", "Infeasible", "Unbounded",
+                     "ContainerAlreadyContains", "SolverNotFound", "ZeroDivisionError"}
+
+
 class Trace:
     def __init__(self, spec):
         self.spec = spec
@@ -122,6 +126,8 @@ def run_trace(rng, spec, nops, kinds=None, oracles=("xref", "sync", "ctx"), extr
             line_op = {"op": "imul", "r": op["r"], "k": op["k"]}
         err = ex.apply(op)
         probs = []
+        if err is not None and err not in DOCUMENTED_ERRORS:
+            probs.append(f"the operation ended with {err}, which is not an exception the API raises on purpose")
         try:
             state = project(ex.model)
         except Exception as e:
@@ -226,6 +232,8 @@ def replay_ops(spec, ops, oracles=("xref", "sync", "ctx"), extra_oracle=None):
         before = canon.full_dump(ex.model) if extra_oracle else None
         err = ex.apply(op)
         probs = []
+        if err is not None and err not in DOCUMENTED_ERRORS:
+            probs.append(f"the operation ended with {err}, which is not an exception the API raises on purpose")
         if "xref" in oracles:
             probs += canon.xref_problems(ex.model)
         if "sync" in oracles:
